@@ -1,3 +1,552 @@
-import GoStd.Bytes
+/-
+C16 — Dialog identity is direction-independent and discriminating.
+
+"Dialog identity is direction-independent and discriminating: two messages are attributed to the
+same dialog whenever they agree on Call-ID and on the two (tag, URI) endpoint pairs - SIP URIs
+compared without their parameters and headers - irrespective of which endpoint appears in From and
+which in To; display names, SIP-URI parameters, header parameters other than tag, and header-name
+spelling do not affect the attribution. Changing the Call-ID, either tag, or the user, host or port
+of either URI yields a different dialog, and a message lacking either tag belongs to no dialog."
+
+Model: Sip.Message `getDialog` / `dialogId` / `getDialogAddr` (message.go GetDialog). The identifier
+is Call-ID and the two (tag, address) halves, the halves ordered by (address, tag), joined by a
+blank. `getDialog` reads exactly: the raw Call-ID value, `getTag` and `getAddrSpec` of the decoded
+From and To (`C16_getDialog_eq`, `C16_getDialog_some`); nothing else of the message enters.
+
+Domain of the discrimination theorems: components free of the blank (byte 32). SIP's grammar allows
+no blank inside a Call-ID, a tag or a URI, but the model's parsers do not reject one (a raw header
+value is only trimmed at its ends); `C16_blank_inside_collides` shows that the restriction is needed.
+-/
+import Lemmas.Dialog
+import Lemmas.Headers
+import Lemmas.Str
+open GoStd Sip
+
 namespace Props.C16
+
+/-! ### 1. direction independence -/
+
+/-- Swapping the two (tag, address) halves does not change the identifier — for all byte strings. -/
+theorem C16_symmetric (c t₁ a₁ t₂ a₂ : Bytes) :
+    dialogId c t₁ a₁ t₂ a₂ = dialogId c t₂ a₂ t₁ a₁ := by
+  unfold dialogId
+  rcases Std.lt_trichotomy a₁ a₂ with h | h | h
+  · have h' : ¬ a₂ < a₁ := List.lt_asymm h
+    have hne : a₂ ≠ a₁ := fun e => List.lt_irrefl a₁ (e ▸ h)
+    simp [h, h', hne]
+  · subst h
+    have hi : ¬ a₁ < a₁ := List.lt_irrefl a₁
+    rcases Std.lt_trichotomy t₁ t₂ with ht | ht | ht
+    · have ht' : ¬ t₂ < t₁ := List.lt_asymm ht
+      simp [hi, ht, ht']
+    · subst ht
+      simp
+    · have ht' : ¬ t₁ < t₂ := List.lt_asymm ht
+      simp [hi, ht, ht']
+  · have h' : ¬ a₁ < a₂ := List.lt_asymm h
+    have hne : a₁ ≠ a₂ := fun e => List.lt_irrefl a₂ (e ▸ h)
+    simp [h, h', hne]
+
+section
+variable (cm : List (Bytes × Bytes))
+
+/-- What `getDialog` reads: Call-ID, and tag and addr-spec of From and To. -/
+theorem C16_getDialog_eq (m m1 m2 : Message) (callId ftag ttag : Bytes) (f t : FromTo) (fa ta : AddrSpec)
+    (hc : getRawHeader cm m callIdName = some callId) (hf : getFrom cm m = some (f, m1)) (hft : f.getTag = some ftag)
+    (hto : getTo cm m1 = some (t, m2)) (htt : t.getTag = some ttag)
+    (hfa : f.getAddrSpec = some fa) (hta : t.getAddrSpec = some ta) :
+    getDialog cm m = (some (dialogId callId ftag (getDialogAddr fa) ttag (getDialogAddr ta)), m2) := by
+  unfold getDialog
+  simp [hc, hf, hft, hto, htt, hfa, hta]
+
+/-- … and a dialog is only ever answered in that way. -/
+theorem C16_getDialog_some (m : Message) (d : Bytes) (h : (getDialog cm m).1 = some d) :
+    ∃ callId f m1 ftag t m2 ttag fa ta,
+      getRawHeader cm m callIdName = some callId ∧ getFrom cm m = some (f, m1) ∧ f.getTag = some ftag ∧
+      getTo cm m1 = some (t, m2) ∧ t.getTag = some ttag ∧ f.getAddrSpec = some fa ∧ t.getAddrSpec = some ta ∧
+      d = dialogId callId ftag (getDialogAddr fa) ttag (getDialogAddr ta) := by
+  unfold getDialog at h
+  split at h
+  · cases h
+  · rename_i callId hc
+    split at h
+    · cases h
+    · rename_i f m1 hf
+      split at h
+      · cases h
+      · rename_i ftag hft
+        split at h
+        · cases h
+        · rename_i t m2 hto
+          split at h
+          · cases h
+          · rename_i ttag htt
+            split at h
+            · rename_i fa ta hfa hta
+              simp only [Option.some.injEq] at h
+              exact ⟨callId, f, m1, ftag, t, m2, ttag, fa, ta, hc, hf, hft, hto, htt, hfa, hta, h.symm⟩
+            · cases h
+
+/-- Two messages that agree on Call-ID and on the two (tag, dialog address) pairs, the second with
+From and To exchanged (a request in the other direction), are attributed to the same dialog. -/
+theorem C16_direction_independent (m m1 m2 m' m1' m2' : Message) (callId tag₁ tag₂ : Bytes)
+    (f t f' t' : FromTo) (fa ta fa' ta' : AddrSpec)
+    (hc : getRawHeader cm m callIdName = some callId) (hf : getFrom cm m = some (f, m1)) (hft : f.getTag = some tag₁)
+    (hto : getTo cm m1 = some (t, m2)) (htt : t.getTag = some tag₂)
+    (hfa : f.getAddrSpec = some fa) (hta : t.getAddrSpec = some ta)
+    (hc' : getRawHeader cm m' callIdName = some callId) (hf' : getFrom cm m' = some (f', m1'))
+    (hft' : f'.getTag = some tag₂) (hto' : getTo cm m1' = some (t', m2')) (htt' : t'.getTag = some tag₁)
+    (hfa' : f'.getAddrSpec = some fa') (hta' : t'.getAddrSpec = some ta')
+    (h₁ : getDialogAddr fa' = getDialogAddr ta) (h₂ : getDialogAddr ta' = getDialogAddr fa) :
+    (getDialog cm m).1 = (getDialog cm m').1 := by
+  rw [C16_getDialog_eq cm m m1 m2 callId tag₁ tag₂ f t fa ta hc hf hft hto htt hfa hta,
+      C16_getDialog_eq cm m' m1' m2' callId tag₂ tag₁ f' t' fa' ta' hc' hf' hft' hto' htt' hfa' hta', h₁, h₂]
+  simp only
+  rw [C16_symmetric]
+
+end
+
+/-! ### 2. what does not matter -/
+
+/-- SIP-URI parameters and headers do not enter the dialog address. -/
+theorem C16_decorations (u u' : SIPURI) (hs : u.scheme = u'.scheme) (hu : u.user = u'.user)
+    (hpw : u.password = u'.password) (hh : u.host = u'.host) (hp : u.port = u'.port) :
+    getDialogAddr (.sip u) = getDialogAddr (.sip u') := by
+  simp [getDialogAddr, SIPURI.write, hs, hu, hpw, hh, hp]
+
+theorem C16_decorations_set (u : SIPURI) (ps hs : List KeyValue) :
+    getDialogAddr (.sip { u with params := ps, headers := hs }) = getDialogAddr (.sip u) :=
+  C16_decorations _ _ rfl rfl rfl rfl rfl
+
+/-- The display name does not enter: `getAddrSpec` of a name-addr is its addr-spec. -/
+theorem C16_display_name (f : FromTo) (na : NameAddr) (d : Bytes) (h : f.nameAddr = some na) :
+    FromTo.getAddrSpec { f with nameAddr := some { na with display := d } } = f.getAddrSpec := by
+  simp [FromTo.getAddrSpec, h]
+
+/-- Header parameters other than `tag` do not enter: `getTag` looks at the first `tag` parameter only
+(parameters with other keys in front of it, and anything behind it, are skipped). -/
+theorem C16_other_params (pre post : List KeyValue) (v : Bytes) (nm : Option NameAddr) (a : Option AddrSpec)
+    (hpre : ∀ p ∈ pre, p.key ≠ str "tag") :
+    FromTo.getTag { nameAddr := nm, addrSpec := a, params := pre ++ { key := str "tag", value := v } :: post } = some v := by
+  unfold FromTo.getTag getParam
+  induction pre with
+  | nil => simp
+  | cons p ps ih =>
+    have hp : (p.key == str "tag") = false := by simpa using hpre p (by simp)
+    have := ih (fun q hq => hpre q (by simp [hq]))
+    simp only [List.cons_append, List.find?_cons, hp] at this ⊢
+    exact this
+
+/-- the header classes `getDialog` looks for -/
+def DialogClasses (n : Bytes) : Prop := n = callIdName ∨ n = fromName ∨ n = toName
+
+/-- Header-name spelling does not enter: re-spelling any header name so that it stays in (or out of) the
+classes Call-ID, From, To — another letter case, the compact form — leaves the attribution unchanged.
+(`Lemmas.respelled_of_toLower`: a change of letter case is always such a re-spelling.) -/
+theorem C16_header_spelling (cm : List (Bytes × Bytes)) (m m' : Message)
+    (H : Lemmas.RespelledList cm DialogClasses m.headers m'.headers) :
+    (getDialog cm m).1 = (getDialog cm m').1 := by
+  unfold getDialog
+  rw [Lemmas.getRawHeader_respelled cm DialogClasses m m' H callIdName (Or.inl rfl)]
+  cases getRawHeader cm m' callIdName with
+  | none => rfl
+  | some callId =>
+    simp only
+    have hF := Lemmas.getFrom_respelled cm DialogClasses m m' H (Or.inr (Or.inl rfl))
+    unfold Lemmas.GetterRel at hF
+    cases h1 : getFrom cm m with
+    | none =>
+      cases h2 : getFrom cm m' with
+      | none => rfl
+      | some r' => rw [h1, h2] at hF; exact absurd hF id
+    | some r =>
+      cases h2 : getFrom cm m' with
+      | none => rw [h1, h2] at hF; exact absurd hF id
+      | some r' =>
+        obtain ⟨f, m1⟩ := r
+        obtain ⟨f', m1'⟩ := r'
+        rw [h1, h2] at hF
+        obtain ⟨rfl, H1⟩ := hF
+        simp only
+        cases f.getTag with
+        | none => rfl
+        | some ftag =>
+          simp only
+          have hT := Lemmas.getTo_respelled cm DialogClasses m1 m1' H1 (Or.inr (Or.inr rfl))
+          unfold Lemmas.GetterRel at hT
+          cases h3 : getTo cm m1 with
+          | none =>
+            cases h4 : getTo cm m1' with
+            | none => rfl
+            | some r' => rw [h3, h4] at hT; exact absurd hT id
+          | some r =>
+            cases h4 : getTo cm m1' with
+            | none => rw [h3, h4] at hT; exact absurd hT id
+            | some r' =>
+              obtain ⟨t, m2⟩ := r
+              obtain ⟨t', m2'⟩ := r'
+              rw [h3, h4] at hT
+              obtain ⟨rfl, -⟩ := hT
+              simp only
+              cases t.getTag with
+              | none => rfl
+              | some ttag =>
+                simp only
+                cases f.getAddrSpec <;> cases t.getAddrSpec <;> rfl
+
+/-! ### 3. a message lacking either tag belongs to no dialog -/
+
+section
+variable (cm : List (Bytes × Bytes))
+
+theorem C16_no_from_tag (m m1 : Message) (f : FromTo)
+    (hf : getFrom cm m = some (f, m1)) (ht : f.getTag = none) : (getDialog cm m).1 = none := by
+  unfold getDialog
+  cases getRawHeader cm m callIdName with
+  | none => rfl
+  | some callId => simp [hf, ht]
+
+theorem C16_no_to_tag (m m1 m2 : Message) (f t : FromTo)
+    (hf : getFrom cm m = some (f, m1)) (hto : getTo cm m1 = some (t, m2)) (ht : t.getTag = none) :
+    (getDialog cm m).1 = none := by
+  unfold getDialog
+  cases getRawHeader cm m callIdName with
+  | none => rfl
+  | some callId =>
+    simp only [hf]
+    cases f.getTag with
+    | none => rfl
+    | some ftag => simp [hto, ht]
+
+/-- Both at once, from the characterisation: a dialog implies both tags. -/
+theorem C16_dialog_has_tags (m : Message) (d : Bytes) (h : (getDialog cm m).1 = some d) :
+    ∃ f m1 t m2, getFrom cm m = some (f, m1) ∧ getTo cm m1 = some (t, m2) ∧
+      f.getTag.isSome = true ∧ t.getTag.isSome = true := by
+  obtain ⟨_, f, m1, ftag, t, m2, ttag, _, _, _, hf, hft, hto, htt, _⟩ := C16_getDialog_some cm m d h
+  exact ⟨f, m1, t, m2, hf, hto, by simp [hft], by simp [htt]⟩
+
+end
+
+/-! ### 4. discrimination -/
+
+/-- Equal identifiers of blank-free components: equal Call-ID and the same unordered pair of
+(tag, address) halves. Hence changing the Call-ID, a tag or an address changes the dialog. -/
+theorem C16_injective (c t₁ a₁ t₂ a₂ c' t₁' a₁' t₂' a₂' : Bytes)
+    (hc : (32 : UInt8) ∉ c) (ht₁ : (32 : UInt8) ∉ t₁) (ha₁ : (32 : UInt8) ∉ a₁)
+    (ht₂ : (32 : UInt8) ∉ t₂) (ha₂ : (32 : UInt8) ∉ a₂)
+    (hc' : (32 : UInt8) ∉ c') (ht₁' : (32 : UInt8) ∉ t₁') (ha₁' : (32 : UInt8) ∉ a₁')
+    (ht₂' : (32 : UInt8) ∉ t₂') (ha₂' : (32 : UInt8) ∉ a₂')
+    (h : dialogId c t₁ a₁ t₂ a₂ = dialogId c' t₁' a₁' t₂' a₂') :
+    c = c' ∧ ((t₁ = t₁' ∧ a₁ = a₁' ∧ t₂ = t₂' ∧ a₂ = a₂') ∨
+              (t₁ = t₂' ∧ a₁ = a₂' ∧ t₂ = t₁' ∧ a₂ = a₁')) := by
+  rcases Lemmas.dialogId_eq_join c t₁ a₁ t₂ a₂ with e | e <;>
+  rcases Lemmas.dialogId_eq_join c' t₁' a₁' t₂' a₂' with e' | e' <;>
+  rw [e, e'] at h
+  · obtain ⟨h0, h1, h2, h3, h4⟩ := Lemmas.join5_injective _ _ _ _ _ _ _ _ _ _ hc ht₁ ha₁ ht₂ ha₂ hc' ht₁' ha₁' ht₂' ha₂' h
+    exact ⟨h0, Or.inl ⟨h1, h2, h3, h4⟩⟩
+  · obtain ⟨h0, h1, h2, h3, h4⟩ := Lemmas.join5_injective _ _ _ _ _ _ _ _ _ _ hc ht₁ ha₁ ht₂ ha₂ hc' ht₂' ha₂' ht₁' ha₁' h
+    exact ⟨h0, Or.inr ⟨h1, h2, h3, h4⟩⟩
+  · obtain ⟨h0, h1, h2, h3, h4⟩ := Lemmas.join5_injective _ _ _ _ _ _ _ _ _ _ hc ht₂ ha₂ ht₁ ha₁ hc' ht₁' ha₁' ht₂' ha₂' h
+    exact ⟨h0, Or.inr ⟨h3, h4, h1, h2⟩⟩
+  · obtain ⟨h0, h1, h2, h3, h4⟩ := Lemmas.join5_injective _ _ _ _ _ _ _ _ _ _ hc ht₂ ha₂ ht₁ ha₁ hc' ht₂' ha₂' ht₁' ha₁' h
+    exact ⟨h0, Or.inl ⟨h3, h4, h1, h2⟩⟩
+
+/-- Same dialog ⇔ same Call-ID and same unordered pair of halves (blank-free components). -/
+theorem C16_same_dialog_iff (c t₁ a₁ t₂ a₂ c' t₁' a₁' t₂' a₂' : Bytes)
+    (hc : (32 : UInt8) ∉ c) (ht₁ : (32 : UInt8) ∉ t₁) (ha₁ : (32 : UInt8) ∉ a₁)
+    (ht₂ : (32 : UInt8) ∉ t₂) (ha₂ : (32 : UInt8) ∉ a₂)
+    (hc' : (32 : UInt8) ∉ c') (ht₁' : (32 : UInt8) ∉ t₁') (ha₁' : (32 : UInt8) ∉ a₁')
+    (ht₂' : (32 : UInt8) ∉ t₂') (ha₂' : (32 : UInt8) ∉ a₂') :
+    dialogId c t₁ a₁ t₂ a₂ = dialogId c' t₁' a₁' t₂' a₂' ↔
+    c = c' ∧ ((t₁ = t₁' ∧ a₁ = a₁' ∧ t₂ = t₂' ∧ a₂ = a₂') ∨
+              (t₁ = t₂' ∧ a₁ = a₂' ∧ t₂ = t₁' ∧ a₂ = a₁')) := by
+  constructor
+  · exact C16_injective c t₁ a₁ t₂ a₂ c' t₁' a₁' t₂' a₂' hc ht₁ ha₁ ht₂ ha₂ hc' ht₁' ha₁' ht₂' ha₂'
+  · rintro ⟨rfl, ⟨rfl, rfl, rfl, rfl⟩ | ⟨rfl, rfl, rfl, rfl⟩⟩
+    · rfl
+    · exact C16_symmetric _ _ _ _ _
+
+/-- Why a blank inside a component is outside the domain: Call-ID `c` with tag `x y` and Call-ID `c x`
+with tag `y` collide. -/
+theorem C16_blank_inside_collides :
+    dialogId [99] [120, 32, 121] [97] [116] [98] = dialogId [99, 32, 120] [121] [97] [116] [98]
+    ∧ ([99] : Bytes) ≠ [99, 32, 120] := by decide
+
+/-! ### 5. why the separator is a blank and not '-' -/
+
+/-- `dialogId` with '-' (a byte that hosts, users and tags may contain) as the separator. -/
+def dialogIdDash (callId tagF addrF tagT addrT : Bytes) : Bytes :=
+  if addrF < addrT || (addrF == addrT && tagF < tagT) then
+    callId ++ [45] ++ tagF ++ [45] ++ addrF ++ [45] ++ tagT ++ [45] ++ addrT
+  else
+    callId ++ [45] ++ tagT ++ [45] ++ addrT ++ [45] ++ tagF ++ [45] ++ addrF
+
+/-- `sip:q@h-x-sip:5` -/
+def uriA : SIPURI := { scheme := [115, 105, 112], user := [113], host := [104, 45, 120, 45, 115, 105, 112], port := 5 }
+/-- `sip:5-x-sip:q@h` -/
+def uriB : SIPURI := { scheme := [115, 105, 112], user := [53, 45, 120, 45, 115, 105, 112], password := [113], host := [104] }
+/-- `sip:5-x-sip:q@h-x-sip:5` -/
+def uriT : SIPURI := { scheme := [115, 105, 112], user := [53, 45, 120, 45, 115, 105, 112], password := [113],
+                       host := [104, 45, 120, 45, 115, 105, 112], port := 5 }
+
+theorem uriA_addr : getDialogAddr (.sip uriA) = [115, 105, 112, 58, 113, 64, 104, 45, 120, 45, 115, 105, 112, 58, 53] := by
+  decide
+theorem uriB_addr : getDialogAddr (.sip uriB) = [115, 105, 112, 58, 53, 45, 120, 45, 115, 105, 112, 58, 113, 64, 104] := by
+  decide
+theorem uriT_addr : getDialogAddr (.sip uriT) =
+    [115, 105, 112, 58, 53, 45, 120, 45, 115, 105, 112, 58, 113, 64, 104, 45, 120, 45, 115, 105, 112, 58, 53] := by
+  decide
+
+/-- With '-' two different From URIs (same To, same tags `x`, same Call-ID `c`) get one identifier … -/
+theorem C16_dash_collides :
+    dialogIdDash [99] [120] (getDialogAddr (.sip uriA)) [120] (getDialogAddr (.sip uriT)) =
+      dialogIdDash [99] [120] (getDialogAddr (.sip uriB)) [120] (getDialogAddr (.sip uriT))
+    ∧ getDialogAddr (.sip uriA) ≠ getDialogAddr (.sip uriB) := by
+  rw [uriA_addr, uriB_addr, uriT_addr]; decide
+
+/-- … with the blank they do not. -/
+theorem C16_blank_separates :
+    dialogId [99] [120] (getDialogAddr (.sip uriA)) [120] (getDialogAddr (.sip uriT)) ≠
+      dialogId [99] [120] (getDialogAddr (.sip uriB)) [120] (getDialogAddr (.sip uriT)) := by
+  rw [uriA_addr, uriB_addr, uriT_addr]; decide
+
+/-! ### 6. the URI core discriminates -/
+
+/-- In the domain "scheme, user, host free of ':'; user, password, host free of '@'" the dialog address
+determines scheme, user, host and port, and the password whenever there is a user.
+Partial with respect to the password: `SIPURI._Write` prints the password only behind a non-empty
+user, so two URIs with an empty user and different passwords have the same dialog address
+(`C16_password_without_user_ignored`; the parser produces such URIs from `sip::pw@host`). The
+property text claims discrimination for user, host and port only. -/
+theorem C16_core_discriminates_partial (u u' : SIPURI)
+    (hs : (58 : UInt8) ∉ u.scheme) (hs' : (58 : UInt8) ∉ u'.scheme)
+    (hu : (58 : UInt8) ∉ u.user ∧ (64 : UInt8) ∉ u.user) (hu' : (58 : UInt8) ∉ u'.user ∧ (64 : UInt8) ∉ u'.user)
+    (hp : (64 : UInt8) ∉ u.password) (hp' : (64 : UInt8) ∉ u'.password)
+    (hh : (58 : UInt8) ∉ u.host ∧ (64 : UInt8) ∉ u.host) (hh' : (58 : UInt8) ∉ u'.host ∧ (64 : UInt8) ∉ u'.host)
+    (h : u.write false false = u'.write false false) :
+    u.scheme = u'.scheme ∧ u.user = u'.user ∧ (u.user ≠ [] → u.password = u'.password) ∧
+    u.host = u'.host ∧ u.port = u'.port := by
+  rw [Lemmas.write_core, Lemmas.write_core] at h
+  -- scheme
+  obtain ⟨hscheme, hrest⟩ := Lemmas.append_cons_injective 58 _ _ _ _ hs hs' h
+  -- both parts around '@' are free of '@'
+  have hHP : ∀ (v : SIPURI), (64 : UInt8) ∉ v.host →
+      (64 : UInt8) ∉ (if v.port ≠ 0 then v.host ++ 58 :: itoa v.port else v.host) := by
+    intro v hv
+    split
+    · simp only [List.mem_append, List.mem_cons, not_or]
+      exact ⟨hv, by decide, Lemmas.itoa_no_at _⟩
+    · exact hv
+  have hUI : ∀ (v : SIPURI), (64 : UInt8) ∉ v.user → (64 : UInt8) ∉ v.password →
+      (64 : UInt8) ∉ (if v.password.length > 0 then v.user ++ 58 :: v.password else v.user) := by
+    intro v hv hw
+    split
+    · simp only [List.mem_append, List.mem_cons, not_or]
+      exact ⟨hv, by decide, hw⟩
+    · exact hv
+  obtain ⟨hQ, hhp, hui⟩ := Lemmas.opt_prefix_injective 64 _ _ _ _ (hUI u hu.2 hp) (hUI u' hu'.2 hp')
+    (hHP u hh.2) (hHP u' hh'.2) _ _ hrest
+  -- host and port
+  obtain ⟨hhost, hP, hport⟩ := Lemmas.opt_suffix_injective 58 _ _ _ _ hh.1 hh'.1 _ _ hhp
+  have hportEq : u.port = u'.port := by
+    by_cases h0 : u.port = 0
+    · have : ¬ (u'.port ≠ 0) := fun hx => (hP.mpr hx) h0
+      rw [h0]; exact (Decidable.not_not.mp this).symm
+    · exact Lemmas.itoa_injective _ _ (hport h0)
+  -- user and password
+  have hnil : ∀ (l : Bytes), ¬ l.length > 0 → l = [] := by
+    intro l hl; cases l with
+    | nil => rfl
+    | cons _ _ => simp at hl
+  by_cases hne : u.user.length > 0
+  · obtain ⟨huser, hPw, hpw⟩ := Lemmas.opt_suffix_injective 58 _ _ _ _ hu.1 hu'.1 _ _ (hui hne)
+    refine ⟨hscheme, huser, fun _ => ?_, hhost, hportEq⟩
+    by_cases hpl : u.password.length > 0
+    · exact hpw hpl
+    · have hpl' : ¬ u'.password.length > 0 := fun hx => hpl (hPw.mpr hx)
+      rw [hnil _ hpl, hnil _ hpl']
+  · have hne' : ¬ u'.user.length > 0 := fun hx => hne (hQ.mpr hx)
+    exact ⟨hscheme, by rw [hnil _ hne, hnil _ hne'], fun hx => absurd (hnil _ hne) hx, hhost, hportEq⟩
+
+/-- The corner the partial statement leaves out: without a user the password is not printed. -/
+theorem C16_password_without_user_ignored :
+    getDialogAddr (.sip { scheme := [115, 105, 112], password := [97], host := [104] }) =
+      getDialogAddr (.sip { scheme := [115, 105, 112], password := [98], host := [104] }) := by decide
+
+/-- Why ':' must not occur in the host (bracket-less IPv6 literals are outside the domain):
+host `a:1` without a port and host `a` with port 1 have the same dialog address. -/
+theorem C16_colon_in_host_collides :
+    getDialogAddr (.sip { scheme := [115, 105, 112], host := [97, 58, 49] }) =
+      getDialogAddr (.sip { scheme := [115, 105, 112], host := [97], port := 1 }) := by decide
+
+/-- The two layers together. For SIP URIs of the domain whose fields are also blank-free, and blank-free
+Call-IDs and tags: the same dialog identifier forces the same Call-ID and, up to exchanging the two
+ends, the same tags and the same scheme, user, host and port at each end. -/
+structure InDomain (u : SIPURI) : Prop where
+  scheme : (58 : UInt8) ∉ u.scheme ∧ (32 : UInt8) ∉ u.scheme
+  user : (58 : UInt8) ∉ u.user ∧ (64 : UInt8) ∉ u.user ∧ (32 : UInt8) ∉ u.user
+  password : (64 : UInt8) ∉ u.password ∧ (32 : UInt8) ∉ u.password
+  host : (58 : UInt8) ∉ u.host ∧ (64 : UInt8) ∉ u.host ∧ (32 : UInt8) ∉ u.host
+
+/-- agreement on everything the dialog address shows -/
+def SameCore (u u' : SIPURI) : Prop :=
+  u.scheme = u'.scheme ∧ u.user = u'.user ∧ (u.user ≠ [] → u.password = u'.password) ∧
+  u.host = u'.host ∧ u.port = u'.port
+
+theorem sameCore_of_addr (u u' : SIPURI) (d : InDomain u) (d' : InDomain u')
+    (h : getDialogAddr (.sip u) = getDialogAddr (.sip u')) : SameCore u u' :=
+  C16_core_discriminates_partial u u' d.scheme.1 d'.scheme.1 ⟨d.user.1, d.user.2.1⟩ ⟨d'.user.1, d'.user.2.1⟩
+    d.password.1 d'.password.1 ⟨d.host.1, d.host.2.1⟩ ⟨d'.host.1, d'.host.2.1⟩ h
+
+theorem addr_no_blank (u : SIPURI) (d : InDomain u) : (32 : UInt8) ∉ getDialogAddr (.sip u) :=
+  Lemmas.write_core_no_blank u d.scheme.2 d.user.2.2 d.password.2 d.host.2.2
+
+theorem C16_discriminating (c t₁ t₂ c' t₁' t₂' : Bytes) (u₁ u₂ u₁' u₂' : SIPURI)
+    (hc : (32 : UInt8) ∉ c) (ht₁ : (32 : UInt8) ∉ t₁) (ht₂ : (32 : UInt8) ∉ t₂)
+    (hc' : (32 : UInt8) ∉ c') (ht₁' : (32 : UInt8) ∉ t₁') (ht₂' : (32 : UInt8) ∉ t₂')
+    (d₁ : InDomain u₁) (d₂ : InDomain u₂) (d₁' : InDomain u₁') (d₂' : InDomain u₂')
+    (h : dialogId c t₁ (getDialogAddr (.sip u₁)) t₂ (getDialogAddr (.sip u₂)) =
+         dialogId c' t₁' (getDialogAddr (.sip u₁')) t₂' (getDialogAddr (.sip u₂'))) :
+    c = c' ∧ ((t₁ = t₁' ∧ SameCore u₁ u₁' ∧ t₂ = t₂' ∧ SameCore u₂ u₂') ∨
+              (t₁ = t₂' ∧ SameCore u₁ u₂' ∧ t₂ = t₁' ∧ SameCore u₂ u₁')) := by
+  obtain ⟨h0, hm⟩ := C16_injective _ _ _ _ _ _ _ _ _ _ hc ht₁ (addr_no_blank u₁ d₁) ht₂ (addr_no_blank u₂ d₂)
+    hc' ht₁' (addr_no_blank u₁' d₁') ht₂' (addr_no_blank u₂' d₂') h
+  refine ⟨h0, ?_⟩
+  rcases hm with ⟨a, b, c, d⟩ | ⟨a, b, c, d⟩
+  · exact Or.inl ⟨a, sameCore_of_addr _ _ d₁ d₁' b, c, sameCore_of_addr _ _ d₂ d₂' d⟩
+  · exact Or.inr ⟨a, sameCore_of_addr _ _ d₁ d₂' b, c, sameCore_of_addr _ _ d₂ d₁' d⟩
+
+/-! ### non-vacuity -/
+
+/-- `sip:alice@a.example:5070` is in the domain -/
+def alice : SIPURI :=
+  { scheme := [115, 105, 112], user := [97, 108, 105, 99, 101], host := [97, 46, 101, 120, 97, 109, 112, 108, 101],
+    port := 5070, params := [{ key := [108, 114], value := [] }] }
+/-- `sip:bob@b.example` -/
+def bob : SIPURI := { scheme := [115, 105, 112], user := [98, 111, 98], host := [98, 46, 101, 120, 97, 109, 112, 108, 101] }
+
+theorem alice_inDomain : InDomain alice := ⟨by decide, by decide, by decide, by decide⟩
+theorem bob_inDomain : InDomain bob := ⟨by decide, by decide, by decide, by decide⟩
+
+/-- hypotheses of `C16_injective` / `C16_discriminating`: Call-ID `c1`, tags `ta`, `tb`, both directions -/
+example := C16_discriminating [99, 49] [116, 97] [116, 98] [99, 49] [116, 98] [116, 97] alice bob bob alice
+  (by decide) (by decide) (by decide) (by decide) (by decide) (by decide)
+  alice_inDomain bob_inDomain bob_inDomain alice_inDomain (C16_symmetric _ _ _ _ _)
+
+/-- hypotheses of `C16_decorations`: alice with and without her `lr` parameter -/
+example : getDialogAddr (.sip alice) = getDialogAddr (.sip { alice with params := [] }) :=
+  C16_decorations _ _ rfl rfl rfl rfl rfl
+
+/-- hypotheses of `C16_core_discriminates_partial` for two different URIs: the conclusion's contrapositive -/
+example : getDialogAddr (.sip alice) ≠ getDialogAddr (.sip bob) := by
+  intro h
+  have := (sameCore_of_addr _ _ alice_inDomain bob_inDomain h).2.1
+  exact absurd this (by decide)
+
+/-- hypotheses of `C16_other_params`: `;x=1;tag=ta;tag=zz` -/
+example := C16_other_params [{ key := [120], value := [49] }] [{ key := str "tag", value := [122, 122] }] [116, 97]
+  none none (by
+    intro p hp
+    simp only [List.mem_singleton] at hp
+    subst hp
+    rw [Lemmas.str_tag]; decide)
+
+/-! a concrete message: `call-id: c1`, `FROM` and `to` already decoded (odd spellings on purpose) -/
+
+def msg (f t : FromTo) : Message :=
+  { start := .status [83] 200 [79, 75],
+    headers := [{ name := [99, 97, 108, 108, 45, 105, 100], value := .raw [99, 49] },
+                { name := [70, 82, 79, 77], value := .fromSpec f },
+                { name := [116, 111], value := .to t }],
+    body := [] }
+
+theorem msg_callId (f t : FromTo) : getRawHeader [] (msg f t) callIdName = some [99, 49] := by
+  have a : isSameHeader [] [99, 97, 108, 108, 45, 105, 100] [67, 97, 108, 108, 45, 73, 68] = true := by decide
+  unfold getRawHeader findHeader callIdName
+  rw [Lemmas.str_callId]
+  simp [msg, a]
+
+theorem msg_from (f t : FromTo) : getFrom [] (msg f t) = some (f, msg f t) := by
+  have a : isSameHeader [] [99, 97, 108, 108, 45, 105, 100] [70, 114, 111, 109] = false := by decide
+  have b : isSameHeader [] [70, 82, 79, 77] [70, 114, 111, 109] = true := by decide
+  unfold getFrom findHeader fromName
+  rw [Lemmas.str_from]
+  simp [msg, a, b]
+
+theorem msg_to (f t : FromTo) : getTo [] (msg f t) = some (t, msg f t) := by
+  have a : isSameHeader [] [99, 97, 108, 108, 45, 105, 100] [84, 111] = false := by decide
+  have b : isSameHeader [] [70, 82, 79, 77] [84, 111] = false := by decide
+  have c : isSameHeader [] [116, 111] [84, 111] = true := by decide
+  unfold getTo findHeader toName
+  rw [Lemmas.str_to]
+  simp [msg, a, b, c]
+
+/-- `"A" <sip:alice@a.example:5070;lr>;tag=ta` -/
+def fAlice : FromTo := { nameAddr := some { display := [34, 65, 34, 32], addr := .sip alice }, addrSpec := none,
+                         params := [{ key := [116, 97, 103], value := [116, 97] }] }
+/-- `sip:alice@a.example:5070;x=1;tag=ta` (addr-spec form, no display name, no URI parameter, an extra header parameter) -/
+def fAlice' : FromTo := { nameAddr := none, addrSpec := some (.sip { alice with params := [] }),
+                          params := [{ key := [120], value := [49] }, { key := [116, 97, 103], value := [116, 97] }] }
+/-- `sip:bob@b.example;tag=tb` -/
+def tBob : FromTo := { nameAddr := none, addrSpec := some (.sip bob), params := [{ key := [116, 97, 103], value := [116, 98] }] }
+def tBobNoTag : FromTo := { nameAddr := none, addrSpec := some (.sip bob), params := [] }
+
+theorem fAlice_tag : fAlice.getTag = some [116, 97] := by unfold FromTo.getTag; rw [Lemmas.str_tag]; decide
+theorem fAlice'_tag : fAlice'.getTag = some [116, 97] := by unfold FromTo.getTag; rw [Lemmas.str_tag]; decide
+theorem tBob_tag : tBob.getTag = some [116, 98] := by unfold FromTo.getTag; rw [Lemmas.str_tag]; decide
+theorem tBobNoTag_tag : tBobNoTag.getTag = none := by unfold FromTo.getTag; rw [Lemmas.str_tag]; decide
+
+/-- hypotheses of `C16_getDialog_eq` and `C16_direction_independent`: alice→bob and bob→alice, the
+second with alice written differently -/
+example : (getDialog [] (msg fAlice tBob)).1 = (getDialog [] (msg tBob fAlice')).1 :=
+  C16_direction_independent [] _ _ _ _ _ _ [99, 49] [116, 97] [116, 98] fAlice tBob tBob fAlice'
+    (.sip alice) (.sip bob) (.sip bob) (.sip { alice with params := [] })
+    (msg_callId _ _) (msg_from _ _) fAlice_tag (msg_to _ _) tBob_tag rfl rfl
+    (msg_callId _ _) (msg_from _ _) tBob_tag (msg_to _ _) fAlice'_tag rfl rfl rfl
+    (C16_decorations _ _ rfl rfl rfl rfl rfl)
+
+/-- … and that dialog exists (hypothesis of `C16_getDialog_some`, `C16_dialog_has_tags`) -/
+example : ((getDialog [] (msg fAlice tBob)).1).isSome = true := by
+  rw [C16_getDialog_eq [] _ _ _ [99, 49] [116, 97] [116, 98] fAlice tBob (.sip alice) (.sip bob)
+    (msg_callId _ _) (msg_from _ _) fAlice_tag (msg_to _ _) tBob_tag rfl rfl]
+  rfl
+
+/-- hypotheses of `C16_no_to_tag` / `C16_no_from_tag`: a To (a From) without tag -/
+example : (getDialog [] (msg fAlice tBobNoTag)).1 = none :=
+  C16_no_to_tag [] _ _ _ fAlice tBobNoTag (msg_from _ _) (msg_to _ _) tBobNoTag_tag
+example : (getDialog [] (msg tBobNoTag fAlice)).1 = none :=
+  C16_no_from_tag [] _ _ tBobNoTag (msg_from _ _) tBobNoTag_tag
+
+/-- hypothesis of `C16_display_name` -/
+example : FromTo.getAddrSpec { fAlice with nameAddr := some { display := [], addr := .sip alice } } = fAlice.getAddrSpec :=
+  C16_display_name fAlice _ [] rfl
+
+/-- hypothesis of `C16_header_spelling`: `call-id`/`FROM`/`to` against `Call-ID`/`f`/`T`, with the
+compact forms `i`, `f`, `t` in the table -/
+def cm0 : List (Bytes × Bytes) :=
+  buildCompactMap [([67, 97, 108, 108, 45, 73, 68], [105]), ([70, 114, 111, 109], [102]), ([84, 111], [116])]
+
+def msgSpelled (f t : FromTo) : Message :=
+  { start := .status [83] 200 [79, 75],
+    headers := [{ name := [67, 97, 108, 108, 45, 73, 68], value := .raw [99, 49] },
+                { name := [102], value := .fromSpec f },
+                { name := [84], value := .to t }],
+    body := [] }
+
+theorem classes_cases (Q : Bytes → Prop) (h1 : Q [67, 97, 108, 108, 45, 73, 68]) (h2 : Q [70, 114, 111, 109]) (h3 : Q [84, 111]) :
+    ∀ name, DialogClasses name → Q name := by
+  intro name hn
+  rcases hn with rfl | rfl | rfl
+  · unfold callIdName; rw [Lemmas.str_callId]; exact h1
+  · unfold fromName; rw [Lemmas.str_from]; exact h2
+  · unfold toName; rw [Lemmas.str_to]; exact h3
+
+example (f t : FromTo) : (getDialog cm0 (msg f t)).1 = (getDialog cm0 (msgSpelled f t)).1 :=
+  C16_header_spelling cm0 _ _
+    (.cons (Lemmas.respelled_of_toLower _ _ _ _ rfl (by decide))
+      (.cons ⟨rfl, classes_cases (fun n => isSameHeader cm0 [70, 82, 79, 77] n = isSameHeader cm0 [102] n)
+                (by decide) (by decide) (by decide)⟩
+        (.cons ⟨rfl, classes_cases (fun n => isSameHeader cm0 [116, 111] n = isSameHeader cm0 [84] n)
+                  (by decide) (by decide) (by decide)⟩ .nil)))
+
 end Props.C16
